@@ -950,6 +950,10 @@ class Engine:
             return self.as_u(st, v)
         if isinstance(v, Z) and v.kind == kind:
             return v.t
+        h = self.method_models.get("__ill_typed_store__")
+        if h is not None:
+            # the unit states a typing invariant for this container: the store becomes a failed obligation and execution goes on with an arbitrary well-typed value
+            return h(self, st, sort, kind, v)
         raise Unsupported(f"cannot store {v} in dict of {kind}")
 
     def ev_Starred(self, e, st):
